@@ -48,6 +48,16 @@ PROPS = {
     "C05": sim("C05", 600, 20000),
     "C07": sim("C07", 1000, 30000),
     "C17": sim("C17", 800, 20000),
+    "C13": {
+        "test": "TestC13", "corpus_test": "TestCorpusC13", "level": "fault_enumeration",
+        "engine": "E-STORE",
+        "tiers": {
+            "quick": {"shards": 16, "cases": 120, "timeout_s": 900},
+            "thorough": {"shards": 16, "cases": 2500, "timeout_s": 7200},
+        },
+        "assumptions": STORE_ASSUMPTIONS + ["the snapshot storage is documented as not concurrency-safe: writers are generated one at a time",
+                                            "whether a file is replaced by rename or rewritten in place is decided per call from the inode of the target (same inode => in-place prefixes are crash images too)"],
+    },
     "C12": {
         "test": "TestC12", "corpus_test": "TestCorpusC12", "level": "fault_enumeration",
         "engine": "E-STORE",
@@ -82,6 +92,21 @@ MANIFEST_TEXT = {
     "C05": simtext("Schedules with unbounded message delay built around a deposed-but-unaware leader (hold-partitions, old replies released first, leader left with non-voters, reads at freshly elected leaders after whole-cluster restarts, slow state machines) with concurrent writers and linearizable readers; a successful read must reflect every write acknowledged before its invocation (recorder order) and reads must not go backwards."),
     "C17": simtext("Bounded-delay network (each message delivered within a drawn D or lost; LD + D < ET), perfect virtual clocks; lease-based reads at any node at any instant under partitions and leader changes; staleness oracle of C05 plus the necessary condition that a voting member answered the serving node within the preceding lease duration."),
     "C07": simtext("Schedules biased to elections between differing logs; at the first sign of leadership of each (node, term) the node's stored log is compared with the set of entries ever observed committed or applied; truncations of committed entries are flagged at any time."),
+    "C13": {
+        "test": "TestC13", "corpus_test": "TestCorpusC13", "level": "fault_enumeration",
+        "engine": "E-STORE",
+        "tiers": {
+            "quick": {"shards": 16, "cases": 120, "timeout_s": 900},
+            "thorough": {"shards": 16, "cases": 2500, "timeout_s": 7200},
+        },
+        "assumptions": STORE_ASSUMPTIONS + ["the snapshot storage is documented as not concurrency-safe: writers are generated one at a time",
+                                            "whether a file is replaced by rename or rewritten in place is decided per call from the inode of the target (same inode => in-place prefixes are crash images too)"],
+    },
+    "C13": {
+        "technique": "model-based property test (rapid state machine) with crash-image enumeration",
+        "level_text": "Generated sequences of SetState / NewSnapshotFile+writes+Close|Discard / SnapshotFile / reopen (up to 40 snapshots per directory) against an in-memory model; every crash image of every call, derived from the observed directory delta (temp file prefixes and rename for the state file; temp snapshot directory in each stage of creation, partial data, partial removal, before/after rename), is opened with NewStateStorage, NewSnapshotStorage, NewLog and NewRaft on the first attempt and compared with the model; sequences continue from crash images.",
+        "level_note": "Trusted: the image generator's process-crash model, checked against the observed delta of every call (unexpected shapes are reported as inconclusive); rename-vs-in-place is decided from the target's inode; one snapshot writer at a time (the storage is documented as not concurrency-safe).",
+    },
     "C12": {
         "technique": "model-based property test (rapid state machine) with crash-image enumeration",
         "level_text": "Generated op sequences against an in-memory reference model; for every mutating call every crash image derived from the observed file delta (quick: boundary-biased byte cuts; thorough: every byte cut for sequences up to 12 ops) is reopened with the real constructors and compared through the whole read API, then probed with append+reopen; sequences continue from crash images. Bounded enumeration of crash points per generated sequence, not a proof over all sequences.",
